@@ -471,6 +471,7 @@ fn c09_end(f: &Facts, sc: &Sc) {
 	let mut tr = Tracker::new(sc);
 	let mut now = 0u64;
 	let mut last_op = "none".to_string();
+	let mut polls_at_last_send = 0u64;
 	for (i, r) in f.log.iter().enumerate() {
 		let mut obs: Vec<Obs> = vec![];
 		if r.t > now {
@@ -493,7 +494,11 @@ fn c09_end(f: &Facts, sc: &Sc) {
 				"op" => {
 					if let Some(o) = f.ops.iter().find(|o| o.log_pos == i) {
 						last_op = format!("{:?}", o.op);
-						obs.push(Obs::Send { idx: o.idx, op: o.op, to_dead: o.sent_to_dead });
+						// a control may have been taken off the queue, with none of its effects
+						// visible yet, only if some task was polled since the previous send
+						let polled = o.polls > polls_at_last_send;
+						polls_at_last_send = o.polls;
+						obs.push(Obs::Send { idx: o.idx, op: o.op, to_dead: o.sent_to_dead, polled });
 					}
 				}
 				"marker" => {
